@@ -65,9 +65,11 @@ def encode(spec):
         elif fmt in ("sac_le", "sac_be"):
             data = {c: s[c].astype(np.float32) for c in COMPS}
             files = []
+            per_file = spec.get("sac_orders") or {}                  # the files of one recording need not share a byte order
             for c in order:
                 b = io.BytesIO()
-                _trace(bands[c] + c, data[c], rate, spec).write(b, format="SAC", byteorder="<" if fmt == "sac_le" else ">")
+                bo = per_file.get(c, "<" if fmt == "sac_le" else ">")
+                _trace(bands[c] + c, data[c], rate, spec).write(b, format="SAC", byteorder=bo)
                 files.append((stem + "_" + c.lower() + ".sac", b.getvalue()))
             exp.update(ns=data["N"].astype(float), ew=data["E"].astype(float), vt=data["Z"].astype(float))
             exp["dt"] = None              # SAC stores delta in single precision: judged against the file's own header
